@@ -209,7 +209,7 @@ def gen_cases(rng, tier):
                 batched = batched or [names[0]]
                 obs["eq_keys"] = obs["eq_keys"] or [rng.choice(names)]
             het = {names[0]: "fn"} if rng.random() < 0.3 else None
-            c = dict(kind=kind, d=rng.choice([1, 2]), m=1, keys=keys, batched=batched, B=2, obs=obs, het=het,
+            c = dict(kind=kind, d=rng.choice([1, 2]), m=1 if r == 0 else 2, keys=keys, batched=batched, B=2, obs=obs, het=het,
                      malformed=None,
                      terms={"dyn": True, "ic": base != "statio", "boundary": base != "ode" and rng.random() < 0.6,
                             "norm": base != "ode" and rng.random() < 0.5})
@@ -309,9 +309,10 @@ def run_loss(case):
         if mode == "jit_arg":
             # the loss object itself is an ARGUMENT of the compiled function (what `jinns.solve` does): its
             # dictionaries are rebuilt by the pytree round trip
-            import equinox as eqx
+            # plain `jax.jit` (not `eqx.filter_jit`, which keeps python numbers static): every leaf of the loss,
+            # its python-float weights included, is a traced array inside -- as in `_gradient_step` of solve
             if "arg" not in jitted:
-                jitted["arg"] = eqx.filter_jit(lambda L, pp, bb: L.evaluate(pp, bb))
+                jitted["arg"] = jax.jit(lambda L, pp, bb: L.evaluate(pp, bb))
             return jitted["arg"](loss, p, batch)
         (total, terms), _ = jax.value_and_grad(lambda pp: loss.evaluate(pp, batch), has_aux=True)(p)
         return total, terms
